@@ -410,7 +410,8 @@ func refSum(b []byte) uint16 {
 // valid: the one's-complement sum over the data (checksum included) is 0xffff.
 func csumValid(b []byte) bool { return refSum(b) == 0xffff }
 
-const accLimit = 2 * 65537 // bytes; beyond this checksum()'s uint32 accumulator can wrap
+// mustRefuse marks messages the wire format cannot represent: Marshal has to return an error.
+const mustRefuse = "<must-refuse>"
 
 // ---------------------------------------------------------------- oracle: expected parse-back, domain, finding regions
 
@@ -616,7 +617,7 @@ func expectBack(proto, typ, code int, b body) (body, bool, string) {
 		}
 		if b.kind == "pp" && proto == protoV6 {
 			if len(b.exts) > 0 {
-				sig = "paramprob-v6-extensions-dropped"
+				sig = mustRefuse // RFC 4884 does not extend the ICMPv6 parameter problem: Marshal must refuse
 			}
 			break
 		}
@@ -628,7 +629,7 @@ func expectBack(proto, typ, code int, b body) (body, bool, string) {
 				unit = 8
 			}
 			if n/unit > 255 {
-				sig = "rfc4884-length-attr-overflow"
+				sig = mustRefuse // the length attribute does not fit its octet: Marshal must refuse
 			}
 		} else if len(b.data) >= 136 && refValidExtHeader(b.data[128:]) {
 			sig = "rfc4884-legacy-128-heuristic"
@@ -696,6 +697,14 @@ func runMsg(op string, k *toks, o *vu.Out) {
 		o.Stat("msg:outside-domain")
 		return
 	}
+	if sig == mustRefuse {
+		if res != "merr" {
+			o.Fail("", "Marshal accepted a message that the wire format cannot represent (it cannot round-trip): "+op[:min(len(op), 200)])
+		} else {
+			o.Stat("msg:refused-unrepresentable")
+		}
+		return
+	}
 	if res == "merr" {
 		o.Fail("", "Marshal refused an in-domain message: "+op)
 		return
@@ -709,11 +718,7 @@ func runMsg(op string, k *toks, o *vu.Out) {
 			full = append(p, wire...)
 		}
 		if !csumValid(full) {
-			s := ""
-			if len(full) > accLimit {
-				s = "checksum-acc-wrap"
-			}
-			o.Fail(s, fmt.Sprintf("marshalled message of %d bytes does not carry a valid RFC 1071 checksum", len(full)))
+			o.Fail("", fmt.Sprintf("marshalled message of %d bytes does not carry a valid RFC 1071 checksum", len(full)))
 		}
 	}
 	if sig != "" {
@@ -878,7 +883,7 @@ func exec(ops []string, o *vu.Out) {
 			// reference: complement of the one's-complement sum, byte-swapped (the code sums little-endian words)
 			r := ^refSum(b)
 			r = r<<8 | r>>8
-			if len(b) <= accLimit && c != r && !(refSum(b) == 0 && c == 0xffff) {
+			if c != r && !(refSum(b) == 0 && c == 0xffff) {
 				o.Fail("", fmt.Sprintf("checksum(%d bytes) = %#04x, reference %#04x", len(b), c, r))
 			}
 		case "bigecho":
@@ -895,11 +900,7 @@ func exec(ops []string, o *vu.Out) {
 			}
 			o.Op(op, fmt.Sprintf("ok %d %s %d", len(w), vu.Hex(w[:8]), icmp.VerifChecksum(w)))
 			if !csumValid(w) {
-				s := ""
-				if len(w) > accLimit {
-					s = "checksum-acc-wrap"
-				}
-				o.Fail(s, fmt.Sprintf("ICMPv4 echo of %d bytes (data %d x %#02x) carries checksum %02x%02x which does not verify", len(w), n, fill, w[2], w[3]))
+				o.Fail("", fmt.Sprintf("ICMPv4 echo of %d bytes (data %d x %#02x) carries checksum %02x%02x which does not verify", len(w), n, fill, w[2], w[3]))
 			} else {
 				o.Stat("bigecho:valid")
 			}
